@@ -98,7 +98,10 @@ func checkC18(c *Ctx, w *World) {
 
 	// ---- C18.clamp
 	{
-		maxF := func(v ssa.Value) bool { cv, ok := stripConv(v).(*ssa.Convert); return ok && cv.X == ssa.Value(bo.Params[1]) }
+		maxF := func(v ssa.Value) bool {
+			cv, ok := stripConv(v).(*ssa.Convert)
+			return ok && cv.X == ssa.Value(bo.Params[1])
+		}
 		okClamp := false
 		why := "return value is not a clamped float converted to a duration"
 		for _, r := range returnsOf(bo) {
